@@ -99,6 +99,41 @@ CLAIMED = {
         "technique": "Rocq refinement proof (generator model + template semantics ⊑ declarative request) by induction over parameter, field, token and write lists + differential run of generated clients, directive parsers and stdlib instances vs the model",
         "coq_targets": ["Properties/C06.vo", "Corr/RestCorr.vo"],
     },
+    "C02": {
+        "text": "Machine-checked (Rocq) over all struct packages of the grammar, all flags, all argument values: shoot's flatten is the depth-first occurrence list with pairwise shadow marking and refines Go's selector rule (an entry is unshadowed iff `resolve` returns its path); NewT(args) stores argument i exactly at the path Go resolves the parameter's field name to, every other leaf holds its def= default else zero, excluded fields are zero, embedded pointers are allocated; parameters are the unshadowed leaves (restricted to new-marked ones when any is marked), in declaration order depth-first, with distinct names; generics carry the struct's type parameters; bounded depth terminates, a self-embedding struct never does. Guarded by a decidable input guard that excludes the classes of 7 open findings, each refuted by a witness theorem. Tied to /repo on every run by differential execution of the built binary, go/types and an in-package oracle on ~185 generated structs (quick), compared inside Coq.",
+        "design_ref": "DESIGN.md section 8, C02; section 13",
+        "note": COMMON_NOTE + "Go semantics of composite literals/selectors, go/types' field presentation, TypeString, RE2 and text/template are modelled (listed in the evidence); the model-vs-code tie is sampled.",
+        "technique": "Rocq proof (refinement of Go's selector rule by the literal flatten; pre-order decoding + evaluation of the generated literal) + L1 probe of the directive parsers + L2 differential run of shoot/go-types/oracle vs model",
+        "coq_targets": ["Properties/C02.vo", "Corr/CtorCorr.vo", "Corr/CtorDirectiveCorr.vo", "Corr/TransferCorr.vo"],
+    },
+    "C12": {
+        "text": "Theorems over all enum packages of the grammar, all strings, all integers and all prior target values: with -json/-text/-sql the enum marshals to its trimmed name, unmarshal(marshal c) = c, every non-string JSON / non-[]byte SQL value / undeclared name is an error that leaves the target unchanged; ParseEnum is Ok exactly on declared names and agrees with ValueMap(); TryParseEnum writes only on success; IsEnum v <-> T(v) (wrap to the kind's width) is in Values(). encoding/json enters as two functions with the law dec(enc s) = s (proved for the instance used by the run). Tied to enumer.tmpl/enumer.go/constraints by executing the generated codecs and shoot.ParseEnum/TryParseEnum/IsEnum over all 2^3 flag sets (+ -gorm on stub modules) and comparing inside Coq.",
+        "design_ref": "DESIGN.md section 8, C12; section 13",
+        "note": COMMON_NOTE + "JSON inputs are restricted to strings without escapes; gorm.io modules are stubs; errors compared by class.",
+        "technique": "Rocq proof (assoc-list round trips under NoDup, wrap arithmetic) + differential execution of generated codecs vs model",
+        "coq_targets": ["Properties/C12.vo", "Corr/EnumCorr.vo"],
+    },
+    "C13": {
+        "text": "Machine-checked (Rocq) for all struct packages of the grammar, all start values and ALL option sequences: an option assigns exactly its field (frame lemma; option paths provably never overlap); With is the single run defaults ++ options, so each option field ends with the last option on it, else its default, else its previous value, and nothing else changes; With never fails on NewT's result; NewWith = new(T).With; an option exists for exactly the non-embedded non-shadowed fields with the documented names. Open findings K_opt_nil_embed, K_opt_promoted_setdefault, K_opt_generic are excluded by guards and refuted by witnesses. Tied to /repo by ~1,280 executed option runs per quick check over three entry points, compared inside Coq.",
+        "design_ref": "DESIGN.md section 8, C13; section 13",
+        "note": COMMON_NOTE + "options are modelled as selector assignments on tree-shaped values; any(t).(defaulter) is modelled by go/types' method set.",
+        "technique": "Rocq proof by induction over option sequences (last-assignment-wins over non-overlapping field paths) on top of the C02 model + differential execution of With/NewWith vs model",
+        "coq_targets": ["Properties/C13.vo", "Corr/CtorOptCorr.vo"],
+    },
+    "C14": {
+        "text": "Has/Add/Remove theorems for all integers (Has after Add; not Has after Remove for f<>0; bits outside f untouched, bitwise and as ldiff equations; results stay in the kind's range). String() theorems for every bit-flag enum of the grammar with an unbounded number of flags and unbounded width: declared -> name; union of declared single-bit flags that is not declared -> names in ascending flag order joined by ', ' (zero and composites may be present); anything else -> decimal; the cases are exhaustive. Open findings: K_bit_map (-bit output never compiles; golden-locked; observed through one documented scratch shim), K_bit_receiver_shadow (type names I*/V*: compile error / wrong String; modelled, guarded, refuted), K_enum_implicit_type. Tied to enumer.tmpl/str.go by executing the generated methods exhaustively over [0,2^(top+2)) x flags per sampled enum.",
+        "design_ref": "DESIGN.md section 8, C14; section 13",
+        "note": COMMON_NOTE + "on this tree the -bit output is only executable through the K_bit_map shim; Go's fixed-width & | &^ are modelled by Z.land/lor/ldiff.",
+        "technique": "Rocq proof (Z.testbit extensionality; loop invariant over the ascending value table) + exhaustive-per-enum differential execution vs model",
+        "coq_targets": ["Properties/C14.vo", "Corr/EnumCorr.vo"],
+    },
+    "C18": {
+        "text": "\"Theorems over all command lines, package syntax trees, directory states, map orders and fault oracles of a phase/effect-log model of one shoot run: every stop before the write phase leaves the directory untouched; without I/O faults and obstructing directory entries a non-zero exit changed nothing; on inputs with well-founded embedding, safe function declarations and package clauses the run always ends in a deliberate exit with status 0/1/2 (never a panic or an unbounded recursion); status 2 only comes from the command line. Eight open defects (3 panics classes, 2 non-terminations, 1 nil dereference on files without package clause, 2 exit-1-after-write) are modelled, refuted by witness and replayed. Tied to the binary by running it on typed damaged packages and comparing exit status, diagnostic class (58) and directory diff with the model's prediction inside Coq.\" (partial)",
+        "design_ref": "DESIGN.md section 8, C18; section 13",
+        "note": COMMON_NOTE + "packages.Load on syntactically broken input, the text produced by the templates and kernel-level I/O faults are not modelled: token deletions and compile errors are only checked against the property itself.",
+        "technique": "Rocq proof over an executable phase/effect-log model (invariants of the read-only phases, write/cleanup lemmas, rank-based termination) + differential run of the shoot binary on typed damaged inputs, compared inside Coq",
+        "coq_targets": ["Properties/C18.vo", "Corr/FailCorr.vo"],
+    },
 }
 
 NOT_CLAIMED = {}
